@@ -96,7 +96,11 @@ func MaxOverlap(tr []Event) int {
 
 // JudgeC01 checks the ordering invariant on the trace and final states.
 // It returns "" when the invariant holds.
-func JudgeC01(c *Case, r *Result) string {
+func JudgeC01(c *Case, r *Result) string { return JudgeC01Kept(c, r, nil) }
+
+// JudgeC01Kept is JudgeC01 for a retry run: steps in kept carry a recorded
+// result from the run being retried and are legitimately never executed.
+func JudgeC01Kept(c *Case, r *Result, kept map[string]bool) string {
 	an := Analyze(r.Trace)
 	for _, s := range c.Steps {
 		st := an[s.Name]
@@ -127,7 +131,7 @@ func JudgeC01(c *Case, r *Result) string {
 				default:
 					return fmt.Sprintf("step %q was executed although its dependency %q ended %q (continueOn failure=%v skipped=%v)", s.Name, dn, fs, d.ContFail, d.ContSkip)
 				}
-				if fs == "finished" && (dt == nil || len(dt.Enters) == 0) {
+				if fs == "finished" && !kept[dn] && (dt == nil || len(dt.Enters) == 0) {
 					return fmt.Sprintf("step %q was executed after dependency %q that is reported finished but never executed", s.Name, dn)
 				}
 			}
